@@ -11,3 +11,5 @@ A("Select", "H_adSelect", "varintAdaptiveSelectEncoding", ["C06"], unwind=3, fun
 A("CheckSorted", "H_adCheckSorted", "varintAdaptiveCheckSorted", ["C06"], mode="M2", src="adaptive_sorted.c", weave=[("varintAdaptive.c", "adaptive.loops")], solvers=["minisat", "cadical"],
   functions=["varintAdaptiveCheckSorted"])
 # forced-encoding compositions (H_adForced, kept in the harness) exhaust 14 GB in CBMC: not established
+A("Analyze/n2", "H_adAnalyze", None, ["C06"], mode="M3", unwind=6, functions=["varintAdaptiveAnalyze", "varintAdaptiveCountUnique", "varintAdaptiveAvgDelta", "varintAdaptiveCheckSorted"],
+  bounded="arrays of exactly 2 values (all 64-bit values); loops unwound 6 times with unwinding assertions", note="qsort is a harness stub (exchange sort calling the real comparator): trusted")
